@@ -161,3 +161,28 @@ Definition check_bigint := mismatches bigint_ok.
 Definition regexp_ok (c : qcfg * bytes * bytes * bytes) : bool :=
   let '(cfg, prefix, v, gb) := c in zlist_eqb (print_regexp cfg prefix v) gb.
 Definition check_regexp := mismatches regexp_ok.
+
+(* ---- tagged templates ---- *)
+From V Require Import C01.Tagged C01.TaggedProofs.
+(* (head raw bytes, tail raw bytes list, Go bytes after the tag) *)
+Definition tagged_ok (c : bytes * list bytes * bytes) : bool :=
+  let '(h, ts, gb) := c in zlist_eqb (print_tagged h ts) gb.
+Definition check_tagged := mismatches tagged_ok.
+(* specification side: the raw strings (TRV) of what was printed are the stored raw strings *)
+Fixpoint decode_all (l : list bytes) : option (list (list Z)) :=
+  match l with
+  | [] => Some []
+  | b :: r => match utf8_decode b, decode_all r with Some c, Some cs => Some (c :: cs) | _, _ => None end
+  end.
+Definition tagged_spec_ok (c : bytes * list bytes * bytes) : bool :=
+  let '(h, ts, gb) := c in
+  match utf8_decode h, decode_all ts with
+  | Some hc, Some tcs =>
+      zlist_eqb (render (tagged_cps hc tcs)) gb &&
+      match raw_value (tagged_cps hc tcs) with
+      | Some raws => list_eqb zlist_eqb raws (map units (hc :: tcs))
+      | None => false
+      end
+  | _, _ => false
+  end.
+Definition check_tagged_spec := mismatches tagged_spec_ok.
